@@ -331,6 +331,12 @@ macro_rules! run_case {
             if c.value % 3 == 0 {
                 read_check!(BufBitReader::<$E, _>::new(MemWordReader::new(words_from_bytes::<u16>(&dbytes))), "buf-u16");
             }
+            // the smallest word: a dispatcher must leave the choice of decoding tables to the reader
+            // (a one-byte word cannot feed the wider look-up tables)
+            read_check!(BufBitReader::<$E, _>::new(MemWordReader::new(dbytes.clone())), "buf-u8");
+            if c.value % 5 == 0 {
+                read_check!(BufBitReader::<$E, _>::new(MemWordReader::new(words_from_bytes::<u64>(&dbytes))), "buf-u64");
+            }
         }
         // --- length ---
         rep.eval(1);
